@@ -11,7 +11,9 @@ import (
 	"errors"
 	"io"
 	"net"
+	"strconv"
 	"sync"
+	"time"
 
 	"github.com/emersion/go-sasl"
 	"github.com/emersion/go-smtp"
@@ -40,7 +42,7 @@ type NextHop struct {
 	Addr string
 
 	mu       sync.Mutex
-	script   map[string]string // "mail", "rcpt:<addr>", "rcpt", "data", "status:<addr>", "drop:<stage>" -> T | P | drop
+	script   map[string]string // "mail", "rcpt:<addr>", "rcpt", "data", "status:<addr>", "drop:<stage>" -> T | P | drop; "dropafter" -> number of per-recipient LMTP replies given before the connection is cut
 	Msgs     []HopMsg
 	Log      []string
 	sessions int
@@ -202,7 +204,20 @@ func (s *hopSession) LMTPData(r io.Reader, status smtp.StatusCollector) error {
 	s.msg.Data = b
 	delivered := *s.msg
 	delivered.To = nil
-	for _, rc := range s.msg.To {
+	dropAfter := -1
+	if v := s.h.get("dropafter"); v != "" {
+		dropAfter, _ = strconv.Atoi(v)
+	}
+	for i, rc := range s.msg.To {
+		if i == dropAfter {
+			// the server dies after it has answered for the first `dropAfter` recipients
+			time.Sleep(3 * time.Millisecond) // let the replies already produced reach the wire
+			s.h.mu.Lock()
+			s.h.Msgs = append(s.h.Msgs, delivered)
+			s.h.mu.Unlock()
+			s.conn.Conn().Close()
+			return &smtp.SMTPError{Code: 421, EnhancedCode: smtp.EnhancedCode{4, 4, 2}, Message: "dropping"}
+		}
 		if e := hopErr(s.h.get("status:"+rc, "status"), "delivery to "+rc); e != nil {
 			status.SetStatus(rc, e)
 			continue
